@@ -10,7 +10,11 @@ from cpppo.server.enip import parser, device, logix, ucmm
 
 glue.activate(cpppo.automata, cpppo.dotdict, parser, device, logix, ucmm)
 N = 5
-TAGS = sim.setup({'A': (parser.INT, N), 'B': (parser.DINT, 2), 'BIG': (parser.INT, 300), 'S': (parser.SINT, 3)})
+_SPEC = {}
+for _k in range(9):
+    _SPEC['T%d' % _k] = (parser.DINT, 1 + _k % 3)            # 13 auto-allocated tags: attribute numbers beyond 9
+_SPEC.update({'A': (parser.INT, N), 'B': (parser.DINT, 2), 'BIG': (parser.INT, 300), 'S': (parser.SINT, 3)})
+TAGS = sim.setup(_SPEC)
 ucmm.UCMM.parser = parser.CIP()
 CM = device.lookup(6, 1)
 ADDR = ('10.1.1.1', 50001)
